@@ -451,7 +451,7 @@ DOC_DEFAULTS = {
     "SparseKernelCenterer": dict(with_center=True, with_trace=True, rcond=1e-12),
     "SparseKDE": dict(fspread=-1.0, fpoints=0.15, metric_params=None),
     "QuickShift": dict(scale=1.0, metric_params=None),
-    "DirectionalConvexHull": dict(tolerance=1e-12),
+    "DirectionalConvexHull": dict(tolerance=1e-12, low_dim_idx=None),
 }
 
 
